@@ -842,6 +842,15 @@ func (s *session) tamper(t Tamper) string {
 			tb = withSlot(b, sl, nv)
 			label = fmt.Sprintf("contribution %d, domain size header %s", k, t.Op)
 		}
+		// an edit whose bytes differ but which decodes to the very same object (a non-canonical
+		// encoding accepted by the decoder) is an identity edit too
+		if o, err := decode(s.fresh(t.Phase), tb); err == nil && t.Class != "chal" {
+			var re []byte
+			if p := ev.Safely(func() { re = encode(o) }); p == "" && bytes.Equal(re, b) {
+				s.cls = append(s.cls, "non-canonical-encoding-of-the-same-contribution(skipped)")
+				return s.skip(t, "decodes to the identical contribution")
+			}
+		}
 		var verr error
 		if t.Direct {
 			verr = s.verifyStep(t.Phase, prev, tb)
